@@ -75,7 +75,12 @@ def case_join(acc, bs, rs):
         kind = "unchanged"
     else:
         if bc[1] is None and not (bc[2] or "").startswith("/"):
+            # outside the judged domain of the full RFC comparison; the statement's "including dot-segment removal" still
+            # applies whenever the reference path is merged: no '.' or '..' segment may survive
             acc.count("base_out_of_domain")
+            if rc[2] and any(sg in (".", "..") for sg in got[2].split("/")):
+                acc.viol("join", (bs, rs), observed={"result": str(j), "components": got}, expected="no dot segment in a merged path",
+                         msg="URL(%r).join(URL(%r)) = %r keeps a dot segment" % (bs, rs, str(j)))
             return str(j)
         acc.nontrivial += 1
         t = R.resolve(bc, rc)
